@@ -192,10 +192,13 @@ def _accepting_prefix(nfa: NFA, S, end: int) -> bool:
     return any(s == end for s, _ in S)
 
 
+def _accept_at_end(nfa: NFA, S, end: int) -> bool:
+    return any(s == end for s, _ in _closure(nfa, set(S), at_end=True))
+
+
 def match_equivalent(p: str, q: str):
-    """(equal?, witness string or None) for the languages {s : re.match(p,s)} and {s : re.match(q,s)}"""
-    if "$" in p or "$" in q or "\\Z" in p or "\\Z" in q:
-        raise Unsupported("end anchors")
+    """(equal?, witness string or None) for the languages {s : re.match(p,s)} and {s : re.match(q,s)}.
+    '$' / '\\Z' are treated as 'end of the string' (the 'before a trailing newline' case of '$' is not modelled)."""
     (n1, s1, e1), (n2, s2, e2) = compile_nfa(p), compile_nfa(q)
     alpha = _alphabet(p, q)
     start = (_closure(n1, {(s1, True)}), _closure(n2, {(s2, True)}), False, False)
@@ -205,12 +208,14 @@ def match_equivalent(p: str, q: str):
         st = todo.pop(0)
         A, B, ma, mb = st
         w = seen[st]
-        ma2 = ma or _accepting_prefix(n1, A, e1)
+        ma2 = ma or _accepting_prefix(n1, A, e1)          # a prefix matched without needing the end of the string
         mb2 = mb or _accepting_prefix(n2, B, e2)
-        if ma2 != mb2:
+        acc1 = ma2 or _accept_at_end(n1, A, e1)           # does the whole string w match?
+        acc2 = mb2 or _accept_at_end(n2, B, e2)
+        if acc1 != acc2:
             return False, w
         if ma2 and mb2:
-            continue  # both already matched a prefix: every extension matches in both
+            continue  # both matched a prefix unconditionally: every extension matches in both
         for ch in alpha:
             nx = (_step(n1, A, ch), _step(n2, B, ch), ma2, mb2)
             if nx not in seen:
@@ -229,3 +234,5 @@ def self_test() -> None:
     assert not match_equivalent(r"^nccl.*Kernel", r".*nccl.*Kernel")[0]
     ok, w = match_equivalent(r"(^nccl.*Kernel)|(.*(Memcpy)|(Memset))|(.*Sync)", r"(^nccl.*Kernel)|(.*(Memcpy|Memset))|(.*Sync)")
     assert not ok  # 'Memset' only at the start in the original (precedence of | inside the group)
+    assert not match_equivalent(r"^nccl.*Kernel", r"nccl.*Kernel$")[0]
+    assert match_equivalent(r"^abc$", r"abc$")[0] and not match_equivalent(r"abc$", r"abc")[0]
